@@ -294,6 +294,9 @@ pub fn run(tier: Tier) -> i32 {
         b.exhaustive_len_main = tier.pick(3, 4) as u32;
         run_inputs(&mut run, &b, "structure clauses on arbitrary input: non-trivial = a parse-stage or analysis error was reported", &structure_oracle);
         crate::recipe_inputs::run_recipe_inputs(&mut run, &b, "structure clauses; non-trivial = an error was reported", &structure_oracle);
+        if tier == Tier::Thorough && !run.failed() {
+            crate::fuzzleg::run_fuzz_leg(&mut run, 8_000_000, &structure_oracle);
+        }
     }
     run.finish()
 }
